@@ -120,7 +120,8 @@ func (s *FakeSup) Exec(ctx context.Context, req *supvmodel.ExecRequest) error {
 		}
 	}
 	for prefix, err := range s.ExecFail {
-		if strings.HasPrefix(req.Name, prefix) {
+		// a key ending in NUL is an exact process name, otherwise a prefix
+		if strings.HasPrefix(req.Name+"\x00", prefix) {
 			q.Err = err.Error()
 			s.record(q)
 			s.r.Fault("launch-failure")
